@@ -129,6 +129,7 @@ def plan(tier, seed):
                 add("stat", spec, f"unit-stat:{prim}:{var}", unit=prim, n=1)
         if prim == "normal_reinforce":
             add("script", R.unit_program(prim, 1), "unit-gh:normal_reinforce", unit=prim)
+    add("enum", R.unit_cond_site_program(), "unit:site-inside-cond-branch")
     for fam in ("enum", "pathwise", "script", "stat"):
         for j in range(counts[fam]):
             rng = np.random.default_rng([int(seed), 11, {"enum": 1, "pathwise": 2, "script": 3, "stat": 4}[fam], j])
@@ -282,39 +283,44 @@ def build_fn(spec):
 
 
 class Prog:
-    """One spec bound to the real ADEV entry points (compiled lazily, once per variant)."""
+    """One spec bound to the real ADEV entry points (compiled lazily, once per variant).
+
+    genjax caches staged jaxprs by function identity, and a staged sample site keeps the keyed sampler it was traced
+    with; the host-driven and the real-sampler variants therefore get their own function objects (``_build``)."""
 
     def __init__(self, spec):
-        jax, jnp, adev, seed = _W["jax"], _W["jnp"], _W["adev"], _W["seed"]
         self.spec = spec
         self.names = [p["name"] for p in spec["params"]]
         self.vector_arg = any(p["n"] for p in spec["params"])
-        self.f = build_fn(spec)
-        self.e = e = adev.expectation(self.f)
-        Dual = adev.Dual
-        n = len(self.names)
-        self.n = n
-
-        def jvp(*a):
-            d = e.jvp_estimate(*[Dual(x, t) for x, t in zip(a[:n], a[n:])])
-            return d.primal, d.tangent
-
-        def grad(*a):
-            g = e.grad_estimate(*a)
-            return g if n > 1 else (g,)
-
-        def est(*a):
-            return e.estimate(*a)
-
-        def fwd(*a):
-            return self.f(*a)
-
-        self.raw = {"jvp": jvp, "grad": grad, "est": est, "fwd": fwd}
+        self.n = len(self.names)
+        self.builds = {}
         self.cache = {}
+
+    def _build(self, hosted):
+        if hosted not in self.builds:
+            adev = _W["adev"]
+            f = build_fn(self.spec)
+            e = adev.expectation(f)
+            Dual = adev.Dual
+            n = self.n
+
+            def jvp(*a):
+                d = e.jvp_estimate(*[Dual(x, t) for x, t in zip(a[:n], a[n:])])
+                return d.primal, d.tangent
+
+            def grad(*a):
+                g = e.grad_estimate(*a)
+                return g if n > 1 else (g,)
+
+            def est(*a):
+                return e.estimate(*a)
+
+            self.builds[hosted] = {"jvp": jvp, "grad": grad, "est": est, "fwd": f}
+        return self.builds[hosted]
 
     def validate(self, th):
         """the harness's own interpreter must trace the program (no ADEV involved): an error here is ours"""
-        _W["jax"].make_jaxpr(self.f)(*self.args(th))
+        _W["jax"].make_jaxpr(build_fn(self.spec))(*self.args(th))
 
     def args(self, th, v=None):
         jnp = _W["jnp"]
@@ -328,7 +334,7 @@ class Prog:
         jax, seed = _W["jax"], _W["seed"]
         k = (what, variant)
         if k not in self.cache:
-            raw = self.raw[what]
+            raw = self._build(variant in ("host", "mvmap"))[what]
             if variant in ("jit", "host"):
                 self.cache[k] = jax.jit(seed(raw))
             elif variant == "eager":
@@ -343,18 +349,14 @@ class Prog:
         return self.cache[k]
 
     def call(self, what, variant, key, *a):
-        """host variants trace (and run) with the host switched on."""
+        """host variants trace and run with the host switched on, the others with the host off."""
         HOST = _W["HOST"]
         fn = self.fn(what, variant)
-        if variant in ("host", "mvmap"):
-            HOST.on = True
-            try:
-                out = fn(key, *a)
-                out = _W["jax"].block_until_ready(out)
-            finally:
-                HOST.on = False
-            return out
-        return _W["jax"].block_until_ready(fn(key, *a))
+        HOST.on = variant in ("host", "mvmap")
+        try:
+            return _W["jax"].block_until_ready(fn(key, *a))
+        finally:
+            HOST.on = False
 
 
 class Fail(Exception):
@@ -756,8 +758,27 @@ def _unit_fails(ctx, label, monitor):
     return cache[ck]
 
 
+def _cond_site_unit_fails(ctx):
+    cache = _W["unit_cache"]
+    if "cond-site" not in cache:
+        spec = R.unit_cond_site_program()
+        rng = np.random.default_rng([11, 98])
+        bad = False
+        try:
+            prog = Prog(spec)
+            for _ in range(2):
+                th, v = R.gen_point(rng, spec)
+                mon_enum(_Quiet(ctx), prog, th, v, count=False)
+        except Fail:
+            bad = True
+        cache["cond-site"] = bad
+    return cache["cond-site"]
+
+
 def _culprit(ctx, spec, monitor):
     labels = R.labels_of(spec)
+    if R.has_site_in_cond(spec) and _cond_site_unit_fails(ctx):
+        return "site-inside-cond-branch"
     if len(labels) == 1:
         return labels[0]
     bad = [lb for lb in labels if _unit_fails(ctx, lb, monitor)]
